@@ -360,6 +360,33 @@ func c16One(x *SeqCtx, cb openCombo, tape []byte, recs []TapeRec, ends []int, sn
 	if rd.Class != "ok" || !bytes.Equal(rd.Data, data.Bytes()) {
 		return mk("entry-written-after-open-not-retrievable", fmt.Sprintf("read back: %s %s %s", rd.Class, rd.Err, rd.Sum))
 	}
+	// further calls on what was already on the tape: rename one pre-existing entry (a directory
+	// takes its subtree along) and the file just written; both must be reachable under their new names
+	var olds []string
+	for p, n := range live {
+		if p != "/" && n.Err == "" && strings.Count(p, "/") == 1 && !strings.HasPrefix(p, "/c16-") {
+			olds = append(olds, p)
+		}
+	}
+	sort.Strings(olds)
+	if len(olds) > 0 {
+		old := olds[int(c.Seed%uint64(len(olds)))]
+		if r := ex.Do(Op{K: "rename", P: old, Q: "/c16-renamed-old"}); r.Class != "ok" {
+			return mk("write-after-open-fails", fmt.Sprintf("rename %q: %s %s", old, r.Class, r.Err))
+		}
+		if r := ex.Do(Op{K: "stat", P: "/c16-renamed-old"}); r.Class != "ok" || r.Info.Kind != live[old].Kind {
+			return mk("entry-written-after-open-not-retrievable", fmt.Sprintf("%q renamed to /c16-renamed-old: stat %s %s %+v", old, r.Class, r.Err, r.Info))
+		}
+		if r := ex.Do(Op{K: "stat", P: old}); r.Class == "ok" {
+			return mk("entry-written-after-open-not-retrievable", fmt.Sprintf("%q still exists after it was renamed", old))
+		}
+	}
+	if r := ex.Do(Op{K: "rename", P: "/c16-new-file", Q: "/c16-new-dir/moved"}); r.Class != "ok" {
+		return mk("write-after-open-fails", fmt.Sprintf("rename of the new file: %s %s", r.Class, r.Err))
+	}
+	if rd := ex.Do(Op{K: "readfile", P: "/c16-new-dir/moved"}); rd.Class != "ok" || !bytes.Equal(rd.Data, data.Bytes()) {
+		return mk("entry-written-after-open-not-retrievable", fmt.Sprintf("renamed new file reads back: %s %s %s", rd.Class, rd.Err, rd.Sum))
+	}
 	live2, _ := Observe(st.FS, "/", ObsOpts{Extra: names})
 	scratch2, _, ierr2, err := RebuildObserve(x.W, drive, names)
 	if err != nil {
@@ -371,8 +398,8 @@ func c16One(x *SeqCtx, cb openCombo, tape []byte, recs []TapeRec, ends []int, sn
 	if d := DiffTrees("live-after-writes", "rebuild-after-writes", live2, scratch2, nil); len(d) > 0 {
 		return mk("entries-written-after-open-do-not-survive-rebuild", strings.Join(d, "; "))
 	}
-	if _, ok := scratch2["/c16-new-file"]; !ok {
-		return mk("entries-written-after-open-do-not-survive-rebuild", "/c16-new-file missing after rebuild")
+	if _, ok := scratch2["/c16-new-dir/moved"]; !ok {
+		return mk("entries-written-after-open-do-not-survive-rebuild", "/c16-new-dir/moved missing after rebuild")
 	}
 	return nil
 }
